@@ -15,7 +15,7 @@ OK == Ev.k = "sample" =>
         /\ Ev.admitted <= Global                                                            \* never more than the global limit
         /\ (~healthy /\ Ev.t > since + FailAfter) => (~Ev.ready /\ Ev.admitted = Local)      \* failing server: not ready, the local limit
         /\ (healthy /\ Ev.t > since + OkAfter) => (Ev.ready /\ Ev.admitted = Quota)           \* answering server: ready, its quota in force
-Next == /\ l <= Len(T.events) /\ OK /\ l' = l + 1 /\ tr' = tr
+Next == /\ l <= Len(T.events) /\ (OK = TRUE) /\ l' = l + 1 /\ tr' = tr
         /\ healthy' = IF Ev.k = "mode" THEN Ev.mode = "ok" ELSE healthy
         /\ since' = IF Ev.k = "mode" /\ (Ev.mode = "ok") # healthy THEN Ev.t ELSE since
 Spec == Init /\ [][Next]_vars
